@@ -138,18 +138,24 @@
 
     // a negative duration moves the date the other way: date + (-D) == date - D, date - (-D) == date + D
     #[kani::proof]
-    fn negative_duration_flips() {
+    fn plus_negative_duration() {
         let cfg = empty_config();
-        let date = any_date_in(1990, 2040);
+        let date = any_date_in(2019, 2021);
         let n: i64 = kani::any();
         kani::assume(n >= 1 && n < 30);
         let me = DateItem(date, tz());
         let a = result_date(me.calculate(&cfg, true, &DurationItem(Duration::days(-n)), OperationType::Add));
-        let b = result_date(me.calculate(&cfg, true, &DurationItem(Duration::days(n)), OperationType::Sub));
-        assert!(a.is_some() && a == b, "OBL:plus_negative_is_minus_positive");
+        assert!(a.is_some() && a.unwrap().num_days_from_ce() as i64 == date.num_days_from_ce() as i64 - n, "OBL:plus_negative_moves_back");
+    }
+    #[kani::proof]
+    fn minus_negative_duration() {
+        let cfg = empty_config();
+        let date = any_date_in(2019, 2021);
+        let n: i64 = kani::any();
+        kani::assume(n >= 1 && n < 30);
+        let me = DateItem(date, tz());
         let c = result_date(me.calculate(&cfg, true, &DurationItem(Duration::days(-n)), OperationType::Sub));
-        let d = result_date(me.calculate(&cfg, true, &DurationItem(Duration::days(n)), OperationType::Add));
-        assert!(c.is_some() && c == d, "OBL:minus_negative_is_plus_positive");
+        assert!(c.is_some() && c.unwrap().num_days_from_ce() as i64 == date.num_days_from_ce() as i64 + n, "OBL:minus_negative_moves_forward");
     }
 
     #[kani::proof]
